@@ -112,14 +112,31 @@ def mutate_elem(rng, toks, datum):
     return out
 
 
+# rules INSIDE the supported class by construction: every variable under the pattern's ellipsis, templates whose ellipsis sub-templates
+# mention those variables once, TWICE or more, in either order, in lists and vectors, several sub-templates over the same run
+DIRECTED = [
+    ("(a ...)", ["((a a) ...)", "(a ... a ...)", "(#(a x a) ...)", "((a (a)) ... k)", "((a) ... (a a a) ...)", "(x (a a) ...)"]),
+    ("((a b) ...)", ["((a b a) ...)", "((b a) ... (a a b b) ...)", "(a ... b ... a ...)", "(#(b b) ... (a) ...)", "((a b) ... (b a) ...)"]),
+    ("(#(a b) ...)", ["((a a b) ...)", "(#(b a b) ...)"]),
+    ("(c (a b) ...)", ["(c (a a) ... c)", "((b a b) ... c (a) ...)"]),
+    ("((a b c) ...)", ["((c b a c) ...)", "((a (b (c a))) ...)"]),
+]
+
+
 def gen_case(rng):
     nrules = rng.randrange(1, 4)
     rules, rules_q = [], []
     pats = []
+    directed = rng.random() < 0.15
     for _ in range(nrules):
-        p = gen_pat(rng, 2, top=True)
-        vs = sorted(set(pat_vars(p)))
-        t = gen_tmpl(rng, vs, 2) if rng.random() < 0.9 else rng.choice(vs + ["1", "x"])
+        if directed:
+            p, ts = rng.choice(DIRECTED)
+            vs = sorted(set(pat_vars(p)))
+            t = rng.choice(ts)
+        else:
+            p = gen_pat(rng, 2, top=True)
+            vs = sorted(set(pat_vars(p)))
+            t = gen_tmpl(rng, vs, 2) if rng.random() < 0.9 else rng.choice(vs + ["1", "x"])
         rules.append("((m %s %s)" % (p[1:], t) if p != "()" else "((m) %s)" % t)
         rules_q.append("((m %s (quote %s))" % (p[1:], t) if p != "()" else "((m) (quote %s))" % t)
         pats.append(p)
